@@ -314,7 +314,50 @@ func c19Gen(w *bufio.Writer, seed int64, tier string) {
 	names := []string{"example.com", "EXAMPLE.com", "www.example.com", "a.b.example.com", ".example.com", "example.com.", "xexample.com",
 		"x.corp.local", "api.test.local", "api.test.local.", "y.spaced.org", "a.b", "foo.", "localhost", "other.org", "*.example.com"}
 	pick := func(xs []string) string { return xs[r.intn(len(xs))] }
+	// domain cases: the resolved address lies in NO permitted network, so the decision rests on the
+	// pattern match alone; every pattern is probed with names derived from it
+	domainCase := func() {
+		var nets, pats []string
+		for k := r.intn(2); k > 0; k-- {
+			nets = append(nets, r.pickS("7f010000/16", "7f010200/24"))
+		}
+		for k := 1 + r.intn(3); k > 0; k-- {
+			pats = append(pats, pick(patsPool))
+		}
+		hp := make([]string, len(pats))
+		for i, p := range pats {
+			hp[i] = hx(p)
+		}
+		e := "1"
+		if r.chance(10) {
+			e = "0"
+		}
+		ns := "-"
+		if len(nets) > 0 {
+			ns = strings.Join(nets, ",")
+		}
+		fmt.Fprintf(w, "reset %s %s %s\n", e, ns, strings.Join(hp, ","))
+		outside := "7f4d0001" // 127.77.0.1
+		for _, p := range pats {
+			base := strings.TrimPrefix(strings.TrimSpace(p), "*.")
+			derived := []string{base, "x." + base, "a.b." + base, "a.b.c." + base, "x" + base, base + ".", "." + base,
+				strings.ToUpper("w." + base), strings.ToUpper(base), "x." + base + ".evil.org", "*." + base, "x-y." + base}
+			for _, d := range derived {
+				if d == "" || len(d) > 250 || !r.chance(70) {
+					continue
+				}
+				fmt.Fprintf(w, "open n:%s:%s\n", hx(d), outside)
+			}
+		}
+		if r.chance(50) {
+			fmt.Fprintf(w, "add 7f4d0000/16 1\nopen n:%s:%s\nremove 7f4d0000/16\nopen n:%s:%s\n", hx("other.org"), outside, hx("other.org"), outside)
+		}
+	}
 	for c := 0; c < cases; c++ {
+		if r.chance(30) {
+			domainCase()
+			continue
+		}
 		exitOn := r.chance(60)
 		var nets, pats []string
 		if r.chance(70) {
